@@ -65,6 +65,47 @@ def follow_terminals(env) -> Dict[str, Set[str]]:
     return out
 
 
+def check_token_actions(ctx: Ctx, env, rule: str = "R4.action-normalisation"):
+    """Every token action that builds a literal / identifier node stores the matched text under the documented
+    normalisation (quotes stripped then '' -> ', duration prefix, identifier split on '.'), nothing else."""
+    g = env.grammar
+    gm = grammar_module(env)
+    kf = env.kindflow
+    n_act = 0
+    for r in g.rules:
+        if r.func is None:
+            continue
+        for p in kf.token_paths.get(r.name, []):
+            if p.outcome != "return" or not isinstance(p.value, TokV):
+                continue
+            v = p.value.attrs.get("value")
+            if not isinstance(v, NewNode) or v.cls not in SPEC:
+                continue
+            n_act += 1
+            key = f"{r.name}|{v.cls}"
+            if v.cls == "Identifier":
+                name, ns = v.fields.get("name"), v.fields.get("namespace")
+                ok = isinstance(name, Sym) and name.op == "splitpart" and name.args[1] == "." and "toktext" in repr(name.args[0]) and \
+                    isinstance(ns, Sym) and ns.op == "tupleof" and isinstance(ns.args[0], AbsList) and repr(ns.args[0].elem) == repr(name)
+                ctx.check(ok, rule, key, f"identifier action builds Identifier(name={name!r}, namespace={ns!r}); required: text split on '.', "
+                          "last segment is the name, the segments before it the namespace", gm.loc(r.func), "geo.length(x) eq 1")
+                continue
+            val = v.fields.get("val")
+            if val is None:
+                ctx.ok(rule, key, "no text stored")
+                continue
+            got = _transforms(val)
+            want = EXPECTED_TRANSFORMS.get(v.cls, [])
+            if got is None:
+                ctx.fail(rule, key, f"token action stores {val!r}, which is not the matched text", gm.loc(r.func))
+                continue
+            norm_got = [t[:3] if t[0] == "slice" else t for t in got]
+            ok = norm_got == want or (v.cls == "Duration" and sorted(map(repr, norm_got)) == sorted(map(repr, want)) and norm_got[-1][0] == "slice")
+            ctx.check(ok, rule, key, f"token action of {r.name} applies {norm_got} to the matched text; the documented normalisation of "
+                      f"{v.cls} is {want or 'none (text unchanged)'}", gm.loc(r.func), "name eq 'it''s'" if v.cls == "String" else None)
+    ctx.floor("token actions building literals", n_act, 11)
+
+
 def run(ctx: Ctx, env):
     g = env.grammar
     gm = grammar_module(env)
@@ -177,39 +218,7 @@ def run(ctx: Ctx, env):
                   f"x eq {issue[1]}" if issue else None)
 
     # ---- R4 actions ------------------------------------------------------------------------------------------------------
-    n_act = 0
-    for r in g.rules:
-        if r.func is None:
-            continue
-        for p in kf.token_paths.get(r.name, []):
-            if p.outcome != "return" or not isinstance(p.value, TokV):
-                continue
-            v = p.value.attrs.get("value")
-            if not isinstance(v, NewNode) or v.cls not in SPEC:
-                continue
-            n_act += 1
-            key = f"{r.name}|{v.cls}"
-            if v.cls == "Identifier":
-                name, ns = v.fields.get("name"), v.fields.get("namespace")
-                ok = isinstance(name, Sym) and name.op == "splitpart" and name.args[1] == "." and "toktext" in repr(name.args[0]) and \
-                    isinstance(ns, Sym) and ns.op == "tupleof" and isinstance(ns.args[0], AbsList) and repr(ns.args[0].elem) == repr(name)
-                ctx.check(ok, "R4.action-normalisation", key, f"identifier action builds Identifier(name={name!r}, namespace={ns!r}); required: text split on '.', "
-                          "last segment is the name, the segments before it the namespace", gm.loc(r.func), "geo.length(x) eq 1")
-                continue
-            val = v.fields.get("val")
-            if val is None:
-                ctx.ok("R4.action-normalisation", key, "no text stored")
-                continue
-            got = _transforms(val)
-            want = EXPECTED_TRANSFORMS.get(v.cls, [])
-            if got is None:
-                ctx.fail("R4.action-normalisation", key, f"token action stores {val!r}, which is not the matched text", gm.loc(r.func))
-                continue
-            norm_got = [t[:3] if t[0] == "slice" else t for t in got]
-            ok = norm_got == want or (v.cls == "Duration" and sorted(map(repr, norm_got)) == sorted(map(repr, want)) and norm_got[-1][0] == "slice")
-            ctx.check(ok, "R4.action-normalisation", key, f"token action of {r.name} applies {norm_got} to the matched text; the documented normalisation of "
-                      f"{v.cls} is {want or 'none (text unchanged)'}", gm.loc(r.func), "name eq 'it''s'" if v.cls == "String" else None)
-    ctx.floor("token actions building literals", n_act, 11)
+    check_token_actions(ctx, env)
 
     # ---- R5 DURATION_PATTERN ----------------------------------------------------------------------------------------------
     _duration_pattern(ctx, env, alpha, rules, rule_of_kind)
